@@ -5,6 +5,7 @@ open Dcommon
 open Datatypes
 
 let max_n = ref 9
+let with_bound = ref false
 let cache : (string, nat list list) Hashtbl.t = Hashtbl.create 64
 
 let key_of (c : case) sem =
@@ -29,9 +30,43 @@ let same_set (a : nat list) (b : nat list) =
   Stdlib.List.for_all (fun x -> mem_nat x b) a && Stdlib.List.for_all (fun x -> mem_nat x a) b
 let is_ext exts (l : nat list) = Stdlib.List.exists (same_set l) exts
 
+(* connected components of a framework, as lists of argument ids (union-find on a small table) *)
+let components (fa : AF.af) : nat list list =
+  let ids = Stdlib.List.map int_of_nat fa.AF.args in
+  let parent = Hashtbl.create 16 in
+  Stdlib.List.iter (fun i -> Hashtbl.replace parent i i) ids;
+  let rec find x = let p = Hashtbl.find parent x in if p = x then x else (let r = find p in Hashtbl.replace parent x r; r) in
+  Stdlib.List.iter (fun (a, b) ->
+      let ra = find (int_of_nat a) and rb = find (int_of_nat b) in
+      if ra <> rb then Hashtbl.replace parent ra rb) fa.AF.atts;
+  let groups = Hashtbl.create 16 in
+  Stdlib.List.iter (fun i -> let r = find i in
+                     Hashtbl.replace groups r (i :: (try Hashtbl.find groups r with Not_found -> []))) ids;
+  Hashtbl.fold (fun _ l acc -> Stdlib.List.map nat_of_int (Stdlib.List.rev l) :: acc) groups []
+
+let sub_af (fa : AF.af) (ids : nat list) : AF.af =
+  { AF.args = ids;
+    AF.atts = Stdlib.List.filter (fun (a, _) -> mem_nat a ids) fa.AF.atts }
+
+(* the C18 bound on SAT calls: per component and summed *)
+let call_bound semname encname (fa : AF.af) : int * int =
+  let base = match encname with
+    | "aux_cf" | "exp_cf" -> AF.BCf | "aux_adm" -> AF.BAdm | "st" -> AF.BSt | _ -> AF.BCo in
+  let per cc =
+    let f = sub_af fa cc in
+    let n = Stdlib.List.length cc in
+    match semname with
+    | "GR" -> 0
+    | "CO" | "ST" -> 2
+    | "PR" -> Stdlib.List.length (AF.all_base base f) + Stdlib.List.length (AF.all_exts AF.PR f) + 1
+    | "ID" -> 2 * Stdlib.List.length (AF.all_base base f) + Stdlib.List.length (AF.all_exts AF.PR f) + 2
+    | _ -> (n + 2) * Stdlib.List.length (AF.all_base base f) + 3 in
+  let l = Stdlib.List.map per (components fa) in
+  (Stdlib.List.fold_left (+) 0 l, Stdlib.List.fold_left max 0 l)
+
 let judge (c : case) =
   match String.split_on_char '/' c.kind with
-  | [ _; semname; q; cert; _ ] -> (
+  | [ _; semname; q; cert; encname ] -> (
       let f = D_static.build_fw c in
       let fa = af_of_fw f in
       let n = Stdlib.List.length fa.AF.args in
@@ -55,6 +90,9 @@ let judge (c : case) =
           | "DC" -> Some (Stdlib.List.exists (fun s -> Stdlib.List.exists (fun a -> mem_nat a s) ids) exts)
           | "DS" -> Some (Stdlib.List.for_all (fun s -> Stdlib.List.exists (fun a -> mem_nat a s) ids) exts)
           | _ -> None in
+        (if !with_bound then
+           let (sum, mx) = call_bound semname encname fa in
+           out (Printf.sprintf "bound sum=%d max=%d" sum mx));
         out (Printf.sprintf "spec n=%d nexts=%d%s" n (Stdlib.List.length exts)
                (match expected with Some b -> " expected=" ^ (if b then "YES" else "NO") | None -> ""));
         match implout with
